@@ -139,12 +139,17 @@ def get_type_graph(t: type) -> graphlib.TopologicalSorter[TypeNode]:
             #   This will terminate this edge to prevent infinite cycles.
             if is_visited and can_be_cyclic:
                 qualname = inspection.qualname(child)
-                *rest, refname = qualname.split(".", maxsplit=1)
-                is_argument = var is not None
-                module = ".".join(rest) or getattr(child, "__module__", None)
-                if module in (None, "__main__") and rest:
-                    module = rest[0]
                 is_class = inspect.isclass(child)
+                is_argument = var is not None
+                if is_class:
+                    # A class' qualified name never includes its module,
+                    #   the dots in it are the enclosing classes.
+                    refname, module = qualname, getattr(child, "__module__", None)
+                else:
+                    *rest, refname = qualname.split(".", maxsplit=1)
+                    module = ".".join(rest) or getattr(child, "__module__", None)
+                    if module in (None, "__main__") and rest:
+                        module = rest[0]
                 ref = refs.forwardref(
                     refname, is_argument=is_argument, module=module, is_class=is_class
                 )
